@@ -81,12 +81,19 @@ def _load_latency(isa):
     return {k: 100.0 for k in "wxbhsdqvzp*"}
 
 
-def _build(isa, forms, tag):
+def _build(isa, forms, tag, mirror_isa=False):
     d = env.scratch("c07-" + tag)
     a = synth.write_arch_model(os.path.join(d, "model.yml"), isa, ["0", "1", "2", "3"], forms,
                                load_default=[[1, "2"]], store_default=[[1, "3"]],
                                load_latency=_load_latency(isa))
-    i = synth.write_isa_db(os.path.join(d, "isa.yml"), isa, [])
+    iforms = []
+    if mirror_isa:
+        for f in forms:
+            g = copy.deepcopy(f)
+            for o in g["operands"]:
+                o["source"], o["destination"] = True, False
+            iforms.append(g)
+    i = synth.write_isa_db(os.path.join(d, "isa.yml"), isa, iforms)
     return synth.load(a, i)
 
 
@@ -106,8 +113,12 @@ class Spy:
 
     def __init__(self, mm):
         self.calls = []
+        self.mm = mm
         self._orig = mm.get_instruction
         mm.get_instruction = self
+
+    def remove(self):
+        del self.mm.get_instruction
 
     def __call__(self, name, operands):
         r = self._orig(name, operands)
@@ -194,7 +205,13 @@ def _r2_table(run, isa, hdr, recs, tier, rnd):
         left, parsed = written[qo]
         name = ("t%d" % j) if pad is None else (("tl%d" % j) if left else ("tr%d" % j))
         for line, ops in parsed:
-            got = mm.get_instruction(name, ops)
+            try:
+                got = mm.get_instruction(name, ops)
+            except Exception as ex:  # noqa
+                run.fail("C07:%s:exception:get_instruction:e=%s:w=%s" % (isa, lc.opsstr([e]), lc.opsstr([w])),
+                         "%s: get_instruction(%r, operands of %r) raised %s: %s" % (isa, name, line, type(ex).__name__, ex),
+                         {"stage": "r2-table", "isa": isa, "entry": e, "written": w, "line": line})
+                continue
             spy.take()
             n_calls += 1
             served = 0 if got is None else 1
@@ -269,8 +286,9 @@ def _r2_lists(run, isa, hdr, recs, tier, rnd):
             if rnd.random() < 0.3:
                 nm = nm.upper()
             forms.append(_form(nm, [lc.entry_yaml(isa, k, rnd) for k in e["ops"]], lat))
-    mm, sem, parser = _build(isa, forms, "lists-" + isa)
+    mm, sem, parser = _build(isa, forms, "lists-" + isa, mirror_isa=True)
     spy = Spy(mm)
+    ispy = Spy(sem._isa_model)   # the ISA database is searched by the same matcher with its own fall-backs
     # one parsed line per (query name, operand list); the mnemonic is substituted per list
     proto = {}
     for qn, nchars in enumerate(qnames, 1):
@@ -301,7 +319,12 @@ def _r2_lists(run, isa, hdr, recs, tier, rnd):
                                   "+".join("%s%s" % (lc.render_name(alpha[a - 1]["n"]), lc.opsstr(alpha[a - 1]["ops"]))
                                            for a in r["el"]))
         # (1) get_instruction alone: the mnemonic as written, no fall-back
-        got = mm.get_instruction(form.mnemonic, form.operands)
+        try:
+            got = mm.get_instruction(form.mnemonic, form.operands)
+        except Exception as ex:  # noqa
+            run.fail("C07:%s:exception:get_instruction:%s" % (isa, tag),
+                     "%s: get_instruction for %r raised %s: %s" % (isa, line, type(ex).__name__, ex), ctx)
+            continue
         spy.take()
         n_calls += 1
         served = 0 if got is None else by_lat[got.latency][1]
@@ -313,6 +336,7 @@ def _r2_lists(run, isa, hdr, recs, tier, rnd):
                 "%s %r on entries %s: get_instruction served entry %d, specification allows %s" % (
                     isa, line, tag, served, sorted(r["scan1"])), ctx)
         # (2) assign_tp_lt: with the suffix fall-backs and the register form
+        ispy.take()
         try:
             own, reg, unknown = _assign(sem, spy, form)
         except Exception as ex:  # noqa
@@ -320,6 +344,17 @@ def _r2_lists(run, isa, hdr, recs, tier, rnd):
                      "%s: %r raised %s: %s" % (isa, line, type(ex).__name__, ex), ctx)
             continue
         n_calls += 1
+        # (3) assign_src_dst: the ISA database holds the same entries
+        iown = next((x for _, wild, x in ispy.take() if not wild and x is not None), None)
+        si = 0 if iown is None else (by_lat[iown.latency][1] if by_lat[iown.latency][0] == L else -1)
+        if si not in r["allowed"]:
+            if si in r["dev"]:
+                sig = "C07:%s:r2:lists:assign_src_dst:dev-suffix-case:n=%s" % (isa, lc.render_name(nchars))
+            else:
+                sig = "C07:%s:r2:lists:assign_src_dst:allowed=%s:served=%d:%s" % (
+                    isa, "".join(map(str, sorted(r["allowed"]))), si, tag)
+            run.fail(sig, "%s %r on entries %s: assign_src_dst used ISA entry %d, specification allows %s" % (
+                isa, line, tag, si, sorted(r["allowed"])), ctx)
 
         def pos_of(x):
             if x is None:
@@ -353,7 +388,8 @@ def _r2_lists(run, isa, hdr, recs, tier, rnd):
     run.add_eval(n_calls)
     run.sample({"stage": "r2-lists", "isa": isa, "entries": len(forms), "lists": len(lists),
                 "example": proto[(1, 1)][0]})
-    del mm.get_instruction
+    spy.remove()
+    ispy.remove()
     return n_calls
 
 
@@ -472,7 +508,7 @@ def _r3_random(run, isa, seed, n_models, n_stems):
         # raw entries in file order: (names tuple, kinds)
         raw = []
         stems = ["k%dm%dv" % (mi, s) for s in range(n_stems)]
-        sfx = ["q", "l", "b"] if isa == "x86" else [".s", ".ne", ".d"]
+        sfx = ["q", "l", "b", "w", "s", "t"] if isa == "x86" else [".s", ".ne", ".d"]
         for st in stems:
             base_ops = [_rand_entry_kind(isa, rnd) for _ in range(rnd.randrange(0, 4))]
             for _ in range(rnd.randrange(1, 5)):
